@@ -13,6 +13,8 @@ ASSUMPTIONS = TRUSTED_BASE + [
     "proved (E1, all path lengths): _generate_file_names gives every frame the destination join(target_dir, basename(source file)) with its index kept, one destination per source file used by all its frames, and only referenced files are moved",
     "per shape (N = 2, 3; queue lengths 0..N+1; initial / later / mixed path numbering; delete_old_all on/off): the delete_old block removes exactly the files of the OLDEST queued path and only when the queue is full (lag), never a file of a live path, "
     "of an initial path or of the path replaced in that very step; initial paths are never queued",
+    "proved (E1, all path and list lengths; uses the executor's try/except support: an index beyond a list FORKS into the IndexError handler): Path.update_energies gives frame k element k of each energy list and None where the list is shorter, "
+    "changes nothing else and never raises (precondition from the call sites: the frames of one path are distinct objects)",
     "bounded native: PathStorage.output followed by load_path for multi-file paths, reversed frames, missing energies, revisited files: same length, frame references (basename, index, velocity direction), energies, orders to 6 decimals, every file under the path's own directory",
     "file names without whitespace (traj.txt is whitespace separated); distinct source files have distinct basenames (the engines' naming scheme <ens>_<pid>_<counter>_traj[BF])",
 ]
@@ -25,6 +27,8 @@ EXPLANATION = (
 def jobs(tier):
     js = [("e1", {"name": "_generate_file_names", "registry": "contracts.storage", "key": "_generate_file_names", "clause": "names under target dir", "cost": 2, "parallel": 2})]
     js += _repex.make_delete_jobs(tier)
+    js.append(("e1", {"name": "Path.update_energies", "registry": "contracts.path", "key": "Path.update_energies",
+               "clause": "energies where present: frame k gets element k of each energy list, None when the list is shorter; nothing else changes; never raises", "cost": 1, "parallel": 4}))
     js.append(("py", {"name": "store_load_roundtrip", "module": "props.C14", "fn": "store_load"}))
     return js
 
@@ -122,7 +126,47 @@ def store_load(spec, tier, seed):
             "time_s": 0.0, "engine": "native", "witness": bad, "solver_output": None if not bad else str(bad)}], "coverage_extra": {"store_load_cases": n}}
 
 
+def _update_energies_native():
+    """The real Path.update_energies on paths of 0..4 frames with energy lists of every length 0..5."""
+    import importlib.util  # noqa: F401
+    from infretis.classes.path import Path
+    from infretis.classes.system import System
+    for n in range(5):
+        for le in range(6):
+            for lv in range(6):
+                p = Path(maxlen=10)
+                for k in range(n):
+                    s = System()
+                    s.order, s.config, s.vel_rev = [0.1 * k], ("f", k), False
+                    p.append(s)
+                before = [(x.order, x.config, x.vel_rev) for x in p.phasepoints]
+                ekin, vpot = [1.0 + k for k in range(le)], [-1.0 - k for k in range(lv)]
+                try:
+                    p.update_energies(ekin, vpot)
+                except Exception as e:
+                    return {"n": n, "len_ekin": le, "len_vpot": lv, "errors": [f"raised {e!r}"]}
+                errs = []
+                for k, x in enumerate(p.phasepoints):
+                    if x.ekin != (ekin[k] if k < le else None) or x.vpot != (vpot[k] if k < lv else None):
+                        errs.append(f"frame {k}: ekin={x.ekin} vpot={x.vpot}")
+                if [(x.order, x.config, x.vel_rev) for x in p.phasepoints] != before:
+                    errs.append("something other than the energies changed")
+                if errs:
+                    return {"n": n, "len_ekin": le, "len_vpot": lv, "errors": errs[:3]}
+    return None
+
+
+def search(obname, limit=None):
+    if obname.split("/")[0] == "Path.update_energies":
+        w = _update_energies_native()
+        return {"witness": w, "native": {"reproduced": True, "violations": w["errors"], "detail": w["errors"]}} if w else None
+    return None
+
+
 def replay(obname, w):
+    if obname.split("/")[0] == "Path.update_energies":
+        hit = search(obname)
+        return hit["native"] if hit else {"reproduced": False, "detail": "update_energies behaves as specified natively for all list lengths 0..5"}
     if isinstance(w, dict) and "state" in w:
         return _repex.replay(obname, w)
     if isinstance(w, dict) and "case" in w:
